@@ -398,9 +398,9 @@ func TestVerifC04(t *testing.T) {
 		return
 	}
 
-	maxL := 24
+	maxL := 32
 	if vh.Thorough() {
-		maxL = 40
+		maxL = 48
 	}
 	work := 0
 	mine := func() bool { work++; return vh.Mine(work) }
